@@ -17,6 +17,7 @@ import hashlib
 import json
 
 import common as C
+import re_probes as RP
 import engine_common as E
 import engine_extract
 from engine_common import M, seq
@@ -701,6 +702,7 @@ def run(ctx, model=True):
         res.seen(case, took)
     res.facts["builtin_plans"] = b["summary"]
     res.samples.append({"builtin_sample": b["sample"]})
+    RP.add_to(res, ["nonrewindable-region", "classic-flyer"])
     return res
 
 
@@ -709,6 +711,9 @@ def run_impl_only(ctx):
 
 
 def replay(ctx, data):
+    r = RP.replay(data)
+    if r is not None:
+        return r
     case = data.get("case") or {}
     if case.get("builtin"):
         import c03_builtin
